@@ -97,6 +97,34 @@ def run_population(ctx, items, label, rnd, nmatch):
                                          matched_against_first_ast=len(cases)))
 
 
+def generator_traces(ctx, rnd, items):
+    """code -> spec: the generator's indentation events while it produces the round-tripped text are a behaviour
+    of spec/GenTrace.tla (every block restores its level, every visit ends where it began)."""
+    from pycparser import c_parser, c_generator
+    from .. import gentrace
+    traces, names = [], []
+    for src, feat in items:
+        try:
+            ast = c_parser.CParser().parse(src, "g.c")
+        except Exception:
+            continue
+        g = c_generator.CGenerator(reduce_parentheses=rnd.random() < 0.5)
+        # the unit, then each external declaration on its own: one generator, several visits
+        tr, outs = gentrace.record(g, [ast] + ast.ext[:3])
+        if any(isinstance(o, Exception) for o in outs):
+            continue    # a generator exception is reported by the round trip itself
+        traces.append(tr)
+        names.append(feat if feat.startswith("corpus:") else src[:100])
+    acc, deep, res = gentrace.validate(traces, "C07")
+    ctx.add_tlc(res, "GenTrace on generator runs (BlockRestores, VisitRestores)")
+    for i, tr in enumerate(traces, 1):
+        if i not in acc:
+            ctx.fail("generator events of %r: %s" % (names[i - 1], gentrace.explain(tr, deep.get(i))),
+                     dict(src=names[i - 1], rp=False))
+    ctx.count(len(traces), traces=len(traces))
+    ctx.note("generator_traces", dict(traces=len(traces), events=sum(len(t["ev"]) for t in traces)))
+
+
 def run(tier):
     ctx = Ctx("C07", tier, "model_checking")
     rnd = random.Random(ctx.seed)
@@ -123,6 +151,7 @@ def run(tier):
     run_population(ctx, eitems, "expressions", rnd, 1000 if tier == "quick" else 10000)
     citems = [(txt, "corpus:" + name) for name, txt in corpus.preprocessed(None)]
     run_population(ctx, citems, "corpus", rnd, len(citems))
+    generator_traces(ctx, rnd, rnd.sample(items, 400 if tier == "quick" else 5000) + citems)
     ctx.sample(dict(source=items[len(items) // 3][0]))
     ctx.assumptions += ["the matcher is applied to programs inside its domain (no _Atomic(type-name) with declarator)"]
     return ctx.finish()
